@@ -151,9 +151,10 @@ class Gen:
     arity, which methods an instance variable probably has) only to make most statements succeed; the oracle is
     the Coq model, not this picture."""
 
-    def __init__(self, rng, big=False):
+    def __init__(self, rng, big=False, force_limit=None):
         self.r = rng
         self.big = big
+        self.force_limit = force_limit   # a kind of LIMIT_KINDS: the program contains that descent to the frame limit
         self.label = 0
         self.stmts = []
         self.globals = []        # every global name, for the harness dump
@@ -832,6 +833,218 @@ class Gen:
                     self.stmts.append(S_try([S_for("v", X, [S_for("w", y, [S_print(E_var("w"))]), S_print(E_var("v"))])]))
         self.features.add("iterator_hierarchy_%d_levels" % levels)
 
+    # ----- the errors the property names, raised AT THE LIMITS of the machine and in combination (round 8)
+    def limit_probes(self, nm, R, ctx, full):
+        """statements for the body of a callable that runs with exactly FRAMES_MAX (or FRAMES_MAX - 1) frames on the fiber:
+        every error the property names, and the matching successful call, through every call path (function, method
+        invoke, bound method, method / function in a field, explicit and default constructor, static through class and
+        instance, Self, super invoke / bound super, native, for loop).  Two conditions are then true at once (the frame limit
+        and the wrong arity / the unknown member / the non-callable callee / the non-class superclass): which error is
+        reported is part of the behaviour.  R = an instance of LB (self, or a global)."""
+        r = self.r
+        A, B, I, E, pf, x = nm["A"], nm["B"], nm["I"], nm["E"], nm["pf"], nm["x"]
+        n1, n2 = E_num(1), E_num(2)
+        P = []
+
+        def add(f, *ss):
+            P.append((f, list(ss)))
+
+        # wrong arity: TypeError at every depth (call_closure tests the arity BEFORE the frame limit)
+        add("arity_invoke_less", S_expr(E_inv(R, "m", [])))
+        add("arity_invoke_more", S_expr(E_inv(R, "m", [n1, n2])))
+        add("arity_bound", S_var("g", E_get(R, "m")), S_expr(E_call(E_var("g"), [n1, n2])))
+        add("arity_method_in_field", S_setf(R, "h0", E_get(R, "n")), S_expr(E_inv(R, "h0", [n1])))
+        add("arity_function", S_expr(E_call(E_var(pf), [n1])))
+        add("arity_function_in_field", S_setf(R, "h1", E_var(pf)), S_expr(E_inv(R, "h1", [])))
+        add("arity_ctor", S_expr(E_inv(E_var(B), "new", [n1])))
+        add("arity_default_ctor", S_expr(E_inv(E_var(E), "new", [n1])))
+        add("arity_static_class", S_expr(E_inv(E_var(A), "s", [])))
+        add("arity_static_instance", S_expr(E_inv(R, "s", [n1, n2])))
+        add("arity_static_bound", S_var("g", E_get(E_var(A), "s")), S_expr(E_call(E_var("g"), [])))
+        add("arity_native", S_print(E_inv(R, "derives", [])))
+        add("arity_native_bound", S_var("dv", E_get(R, "derives")), S_print(E_call(E_var("dv"), [E_var(A), E_var(A)])))
+        # a failed call leaves the caller's locals as they were (the callee sits directly above them on the stack)
+        def intact(f, callee, args):
+            add(f, S_var("w1", E_str("w1-local")), S_var("w2", E_str("w2-local")), S_var("g", callee),
+                S_try([S_expr(E_call(E_var("g"), args))]), S_print(E_var("w1")), S_print(E_var("w2")), S_ptype(E_var("g")))
+        intact("arity_locals_intact_bound", E_get(R, "m"), [])
+        intact("arity_locals_intact_function", E_var(pf), [])
+        intact("arity_locals_intact_bound_ctor", E_get(E_var(B), "new"), [n1])
+        if ctx in ("method", "init"):
+            add("arity_super_invoke", S_expr(E_sinv("m", [])))
+            add("arity_super_bound", S_var("sf", E_sget("m")), S_expr(E_call(E_var("sf"), [n1, n2])))
+            add("arity_super_new", S_expr(E_sinv("new", [])))
+            add("arity_super_native", S_print(E_sinv("derives", [])))
+        if ctx == "static":
+            add("arity_Self_new", S_expr(E_inv("ECapSelf", "new", [n1])))
+            add("arity_super_static", S_expr(E_sinv("s", [])))
+        # the same paths with the RIGHT arity: IndexError "Stack overflow." exactly when the fiber holds FRAMES_MAX frames
+        # (natives push no frame); one frame higher the call is entered and ITS calls fail
+        add("ok_invoke", S_print(E_eq(E_inv(R, "m", [n1]), R)))
+        add("ok_invoke_calls_on", S_expr(E_inv(R, "n", [])))
+        add("ok_bound", S_var("g", E_get(R, "m")), S_print(E_eq(E_call(E_var("g"), [n1]), R)))
+        add("ok_method_in_field", S_setf(R, "h2", E_get(E_var(x), "n")), S_expr(E_inv(R, "h2", [])))
+        add("ok_function", S_print(E_call(E_var(pf), [n1, n2])))
+        add("ok_ctor", S_var("y", E_inv(E_var(B), "new", [n1, n2])), S_print(E_get(E_var("y"), "f1")))
+        add("ok_default_ctor", S_var("y", E_inv(E_var(E), "new", [])), S_ptype(E_var("y")))
+        add("ok_static_class", S_expr(E_inv(E_var(A), "s", [n1])))
+        add("ok_static_instance", S_expr(E_inv(R, "s", [n1])))
+        add("ok_static_factory", S_var("y", E_inv(E_var(B), "t", [])), S_ptype(E_var("y")))
+        add("ok_native", S_print(E_inv(R, "derives", [E_var(A)])))
+        add("ok_native_bound", S_var("dv", E_get(R, "derives")), S_print(E_call(E_var("dv"), [E_var(E)])))
+        add("ok_for", S_for("v", E_inv(E_var(I), "new", []), [S_print(E_var("v"))]))
+        add("ok_for_existing", S_for("v", E_var(nm["it"]), [S_print(E_var("v"))]))
+        lz = "LQ%d" % self.lab()
+        add("ok_local_class", S_class(lz, A, "new", [M_decl("KMethod", "n", [], [S_print(E_str(lz + ".n")), S_expr(E_sinv("n", []))],
+                                                             self.lab())], self.lab()),
+            S_var("q", E_inv(E_var(lz), "new", [])), S_expr(E_inv(E_var("q"), "n", [])))
+        if ctx in ("method", "init"):
+            add("ok_super_invoke", S_print(E_eq(E_sinv("m", [n1]), R)))
+            add("ok_super_bound", S_var("sf", E_sget("m")), S_print(E_eq(E_call(E_var("sf"), [n1]), R)))
+            add("ok_super_native", S_print(E_sinv("derives", [E_var(A)])))
+        if ctx == "static":
+            add("ok_Self_new", S_var("y", E_inv("ECapSelf", "new", [n1, n2])), S_print(E_get(E_var("y"), "f0")))
+            add("ok_super_static", S_expr(E_sinv("s", [n1])))
+        # unknown members, non-callable callees, field set on a non-instance, non-class superclass: the same at every depth
+        add("unknown_invoke", S_expr(E_inv(R, "zz", [])))
+        add("unknown_invoke_args", S_expr(E_inv(R, "zz", [n1, n2])))
+        add("unknown_get", S_expr(E_get(R, "zz")))
+        add("unknown_class_invoke", S_expr(E_inv(E_var(B), "zz", [])))
+        add("unknown_instance_method_through_class", S_expr(E_inv(E_var(B), "m", [n1])))
+        add("unknown_builtin", S_expr(E_inv(r.choice([E_num(5), "ENil", E_str("str")]), "zz", [])))
+        add("not_callable_field", S_setf(R, "h3", n1), S_expr(E_inv(R, "h3", [])))
+        add("not_callable_class", S_expr(E_call(E_var(B), [])))
+        add("not_callable_instance", S_expr(E_call(R, [n1])))
+        add("set_on_non_instance", S_setf(E_var(B), "q", n1))
+        add("non_class_superclass", S_class("LZ%d" % self.lab(), x, r.choice([None, "new"]), [], self.lab()))
+        add("non_class_superclass_with_members", S_var("ns", E_str("s")),
+            S_class("LZ%d" % self.lab(), "ns", None, [M_decl("KMethod", "m", [], [S_print(E_str("never"))], self.lab())], self.lab()))
+        if ctx in ("method", "init", "static"):
+            add("unknown_super_invoke", S_expr(E_sinv("zz", [n1])))
+            add("unknown_super_get", S_expr(E_sget("zz")))
+        if not full:
+            # a sample that always contains wrong-arity, right-arity and unknown-member probes
+            groups = {}
+            for f, ss in P:
+                groups.setdefault(f.split("_")[0], []).append((f, ss))
+            pick = []
+            for gname, lst in sorted(groups.items()):
+                kk = {"arity": r.randint(3, 6), "ok": r.randint(2, 5)}.get(gname, r.randint(0, 2))
+                pick += r.sample(lst, min(kk, len(lst)))
+            r.shuffle(pick)
+            P = pick
+        out = []
+        for i, (f, ss) in enumerate(P):
+            self.features.add("limit_probe_" + f)
+            bare = len(ss) == 1 and i == len(P) - 1 and not full and r.random() < 0.25
+            out.append(ss[0] if bare else S_try(ss))
+        if not full and r.random() < 0.5 and self.insts:
+            # statements of the ordinary top-level generators (over the program's own hierarchy), executed at the limit
+            keep, keep_insts = self.stmts, list(self.insts)
+            self.stmts = []
+            for _ in range(r.randint(2, 5)):
+                (self.use_instance if r.random() < 0.75 else self.use_class)()
+            extra, self.stmts, self.insts = self.stmts, keep, keep_insts
+            out += [s if s.startswith("(STry") else S_try([s]) for s in extra]
+            self.features.add("limit_random_uses")
+        return out
+
+    LIMIT_KINDS = ["fun", "method", "bound", "field", "static", "static_instance", "ctor", "pingpong", "nested", "lambda"]
+
+    def limit_scenario(self, kind=None, full=False):
+        """a self-limiting descent: a callable that calls itself inside `try` until the call fails with IndexError
+        "Stack overflow." - the frame that catches it runs with EXACTLY FRAMES_MAX frames (whatever the constant is), and
+        executes the probes there; the frame above it executes a second set with FRAMES_MAX - 1 frames.  Every level prints a
+        line, so the output also shows at which depth the limit was hit.  The descent itself goes through one call path:
+        plain function, method invoke, bound method, method in a field, static method through Self / through an instance,
+        constructor, super call + dynamic dispatch alternating, function / lambda nested in a method."""
+        r = self.r
+        k = self.lab()
+        kind = kind or r.choice(self.LIMIT_KINDS)
+        nm = {"A": "LA%d" % k, "B": "LB%d" % k, "I": "LI%d" % k, "E": "LE%d" % k, "D": "LD%d" % k, "pf": "lpf%d" % k,
+              "x": "lx%d" % k, "it": "lit%d" % k}
+        A, B, I, E, D, pf, x = nm["A"], nm["B"], nm["I"], nm["E"], nm["D"], nm["pf"], nm["x"]
+        hit, hit2 = "lhit%d" % k, "lhit%d_2" % k
+        false, true = "(EBool false)", "(EBool true)"
+
+        def gate(R, ctx):
+            lower = self.limit_probes(nm, R, ctx, full)
+            upper = self.limit_probes(nm, R, ctx, full)
+            return S_if(E_eq(E_var(hit), false), [S_assign(hit, true), S_print(E_str("at the limit"))] + lower,
+                        [S_if(E_eq(E_var(hit2), false), [S_assign(hit2, true), S_print(E_str("one below the limit"))] + upper)])
+
+        def descent(call, R, ctx, tag):
+            return [S_print(E_str(tag)), S_try(call), gate(R, ctx)]
+
+        a_ms = [("KInit", "new", ["a"], [S_setf("ESelf", "f0", E_var("a"))]),
+                ("KMethod", "m", ["a"], [S_print(E_str(A + ".m")), S_ret("ESelf")]),
+                ("KMethod", "n", [], [S_print(E_str(A + ".n")), S_expr(E_inv("ESelf", "m", [E_num(1)]))]),
+                ("KStatic", "s", ["a"], [S_print(E_str(A + ".s"))])]
+        b_ms = [("KInit", "new", ["a", "b"], [S_expr(E_sinv("new", [E_var("a")])), S_setf("ESelf", "f1", E_var("b"))]),
+                ("KMethod", "m", ["a"], [S_print(E_str(B + ".m")), S_ret(E_sinv("m", [E_var("a")]))]),
+                ("KStatic", "t", [], [S_print(E_str(B + ".t")), S_ret(E_inv("ECapSelf", "new", [E_num(1), E_num(2)]))])]
+        post = []
+        start = None
+        if kind == "fun":
+            dn = "ldown%d" % k
+            post.append(S_fun(dn, [], descent([S_expr(E_call(E_var(dn), []))], E_var(x), "fun", "lv")))
+            start = S_expr(E_call(E_var(dn), []))
+        elif kind == "method":
+            b_ms.append(("KMethod", "down", [], descent([S_expr(E_inv("ESelf", "down", []))], "ESelf", "method", "lv")))
+            start = S_expr(E_inv(E_var(x), "down", []))
+        elif kind == "bound":
+            b_ms.append(("KMethod", "down", [], descent([S_var("d", E_get("ESelf", "down")), S_expr(E_call(E_var("d"), []))],
+                                                        "ESelf", "method", "lv")))
+            start = S_expr(E_inv(E_var(x), "down", []))
+        elif kind == "field":
+            b_ms.append(("KMethod", "down", [], descent([S_expr(E_inv("ESelf", "h9", []))], "ESelf", "method", "lv")))
+            post.append(S_setf(E_var(x), "h9", E_get(E_var(x), "down")))
+            start = S_expr(E_inv(E_var(x), "h9", []))
+        elif kind in ("static", "static_instance"):
+            b_ms.append(("KStatic", "down", [], descent([S_expr(E_inv("ECapSelf", "down", []))], E_var(x), "static", "lv")))
+            start = S_expr(E_inv(E_var(B) if kind == "static" else E_var(x), "down", []))
+        elif kind == "ctor":
+            post.append(S_class(D, B, None, [M_decl("KInit", "new", [], descent([S_expr(E_inv(E_var(D), "new", []))], "ESelf", "init", "lv"),
+                                                    self.lab())], self.lab()))
+            start = S_expr(E_inv(E_var(D), "new", []))
+        elif kind == "pingpong":
+            # B.down -> super.step (A.step) -> self.down (B.down, dynamic dispatch) -> ...: whichever holds the last frame probes
+            a_ms.append(("KMethod", "step", [], descent([S_expr(E_inv("ESelf", "down", []))], "ESelf", "plain_method", "lv-step")))
+            a_ms.append(("KMethod", "down", [], [S_print(E_str("never"))]))
+            b_ms.append(("KMethod", "down", [], descent([S_expr(E_sinv("step", []))], "ESelf", "method", "lv-down")))
+            start = S_expr(E_inv(E_var(x), r.choice(["down", "step"]), []))
+        else:
+            lam = 1 if kind == "lambda" else 0
+            inner = S_fun("inner", [], descent([S_expr(E_call(E_var("inner"), []))], "ESelf", "method", "lv"), lam)
+            if lam:
+                # a lambda cannot name itself before it is bound: it reaches itself through a field of self
+                inner = S_fun("inner", [], descent([S_expr(E_inv("ESelf", "h8", []))], "ESelf", "method", "lv"), 1)
+                b_ms.append(("KMethod", "start", [], [inner, S_setf("ESelf", "h8", E_var("inner")), S_expr(E_call(E_var("inner"), []))]))
+            else:
+                b_ms.append(("KMethod", "start", [], [inner, S_expr(E_call(E_var("inner"), []))]))
+            start = S_expr(E_inv(E_var(x), "start", []))
+        mk = lambda ms: [M_decl(kd, n, ps, body, self.lab()) for kd, n, ps, body in ms]
+        self.stmts.append(S_class(A, None, None, mk(a_ms), self.lab()))
+        self.stmts.append(S_class(B, A, None, mk(b_ms), self.lab()))
+        self.stmts.append(S_class(E, None, "new", [], self.lab()))
+        nxt = [S_if(E_eq(E_get("ESelf", "k"), E_num(0)), [S_setf("ESelf", "k", E_num(1)), S_ret(E_str(I + ".v"))]),
+               S_ret(E_inv(E_var("StopIter"), "new", []))]
+        self.stmts.append(S_class(I, "Iter", None, [M_decl("KInit", "new", [], [S_setf("ESelf", "k", E_num(0))], self.lab()),
+                                                    M_decl("KMethod", "next", [], nxt, self.lab())], self.lab()))
+        self.stmts.append(S_fun(pf, ["p", "q"], [S_print(E_str(pf)), S_ret(E_var("q"))]))
+        self.stmts.append(S_var(x, E_inv(E_var(B), "new", [E_num(7), E_num(8)])))
+        self.stmts.append(S_var(nm["it"], E_inv(E_var(I), "new", [])))
+        self.stmts.append(S_var(hit, false))
+        self.stmts.append(S_var(hit2, false))
+        self.stmts += post
+        self.stmts.append(self.maybe_try(start, 0.8))
+        self.stmts.append(S_print(E_str("back at the top")))
+        # the same callee once more from the top: the limit is hit at the same depth, no probes any more
+        if r.random() < 0.3 or full:
+            self.stmts.append(S_try([start]))
+        self.globals += [A, B, I, E, pf, x, nm["it"]] + ([D] if kind == "ctor" else [])
+        self.features.add("limit_descent_" + kind)
+
     def local_factory(self):
         """a class declared in a function's scope, deriving from a global class, with methods that capture a
         local variable; the class escapes through a closure"""
@@ -921,6 +1134,9 @@ class Gen:
         for c in self.order:
             if r.random() < 0.8:
                 self.construct(c)
+        if self.force_limit or r.random() < 0.3:
+            # early in the program: the descent needs ~8 levels of the model's fuel per frame
+            self.limit_scenario(kind=self.force_limit)
         if r.random() < 0.45:
             self.scoped_factory()
         if r.random() < 0.4:
@@ -1016,7 +1232,21 @@ def fixed_programs():
              "features": ["fixed:class_factory_in_static_method"]},
             {"term": "[" + ";\n ".join(nested) + "]", "globals": ["A", "B", "x", "g"],
              "features": ["fixed:super_in_nested_fn"]},
-            fixed_iterator_program()]
+            fixed_iterator_program()] + fixed_limit_programs()
+
+
+def fixed_limit_programs():
+    """every error of the property through every call path with exactly FRAMES_MAX and FRAMES_MAX - 1 frames on the fiber,
+    the descent to the limit taken through each call path in turn (two programs, 5 descents each, the full probe list)"""
+    out = []
+    kinds = Gen.LIMIT_KINDS
+    for j, ks in enumerate([kinds[0::2], kinds[1::2]]):
+        g = Gen(yvlib.Rng(11 + j))
+        for kind in ks:
+            g.limit_scenario(kind=kind, full=True)
+        out.append({"term": "[" + ";\n ".join(g.stmts) + "]", "globals": list(dict.fromkeys(g.globals)),
+                    "features": ["fixed:errors_at_the_frame_limit_%d" % j] + sorted(g.features)})
+    return out
 
 
 def fixed_iterator_program():
@@ -1030,8 +1260,8 @@ def fixed_iterator_program():
             "features": ["fixed:field_shadows_implicit_member"]}
 
 
-def gen_program(rng, big=False):
-    g = Gen(rng, big)
+def gen_program(rng, big=False, force_limit=None):
+    g = Gen(rng, big, force_limit)
     term = g.program()
     return {"term": term, "globals": list(dict.fromkeys(g.globals)), "features": sorted(g.features)}
 
@@ -1227,7 +1457,8 @@ def report(ctx, cases, models, fails, stats, do_shrink=True):
             continue
         term = c["term"]
         src = m["src"]
-        if do_shrink and nviol == 0:
+        if do_shrink and nviol == 0 and not any(f.startswith("fixed:") for f in c["features"]):
+            # (the hand-written fixed programs are reported as they are)
             try:
                 term = shrink(ctx, c, kind, stats)
                 mm = model_eval([{"term": term}], "c07_shrunk")[0]
@@ -1309,7 +1540,16 @@ def other_reference(ctx, cases, models, recs, limit):
     if not all(os.path.exists(os.path.join(yvlib.COQ, "theories", f)) for f in need):
         ctx.notes.append("SpecRun.v/ParseRun.v (full reference interpreter) not built: that comparison is skipped")
         return
-    idx = [i for i, m in enumerate(models) if m][:limit]
+    # the descents to the frame limit are expensive in the full interpreter (measured: the two fixed limit programs alone
+    # ~4 min under load; they agreed): the quick tier takes ONE generated program with a descent, the thorough tier also the
+    # fixed ones
+    def is_limit(i):
+        return any(f.startswith("limit_descent") for f in cases[i]["features"])
+    plain = [i for i, m in enumerate(models) if m and not is_limit(i)]
+    lim = [i for i, m in enumerate(models) if m and is_limit(i)]
+    lim_take = [i for i in lim if not cases[i]["features"][0].startswith("fixed:")][:1] if ctx.quick() else lim[:12]
+    idx = sorted(plain[:max(0, limit - len(lim_take))] + lim_take)
+    ctx.cov["reference_interpreter_limit_programs"] = len(lim_take)
     terms = ['run_case 400 nil "%s"' % hx(models[i]["src"]) for i in idx]
     shard = max(2, min(20, (len(terms) + yvlib.NPROC - 1) // yvlib.NPROC))
     try:
@@ -1407,7 +1647,9 @@ def search(ctx):
         if time.time() - t0 > 240:
             ctx.notes.append("search stopped after %.0f s (time bound)" % (time.time() - t0))
             break
-        cases = [gen_program(rng, big=True) for _ in range(160)]
+        # directed families first: the fixed programs and one descent to the frame limit per call path
+        directed = (fixed_programs() + [gen_program(rng, big=False, force_limit=k) for k in Gen.LIMIT_KINDS * 3]) if batch == 0 else []
+        cases = directed + [gen_program(rng, big=True) for _ in range(160 - len(directed))]
         stats = new_stats()
         try:
             models, recs, recsm = run_batch(ctx, cases, "c07_search", stats)
